@@ -25,7 +25,17 @@ type Outcome struct {
 	SQL     string
 	Doc     any // the caller's document after the call
 	Options []string
+	// with ReExec on: what a second Exec of the same *Query returned
+	Again  bool
+	Rows2  []any
+	Err2   error
+	Panic2 any
 }
+
+// ReExec makes Run call Exec a second time on the query object it has just executed successfully (a Query may be
+// executed any number of times; what it returns is a function of the query and the document, not of earlier runs).
+// Set by the checks of properties whose queries have no side effects by design.
+var ReExec bool
 
 var (
 	recMu  sync.Mutex
@@ -107,6 +117,22 @@ func Run(doc map[string]any, sql string, record bool, opts ...genql.QueryOption)
 		return
 	}
 	out.Rows = rows
+	if ReExec {
+		if record {
+			recMu.Lock()
+			recOn = false // the stage events of the second run are not part of the recorded history
+			recMu.Unlock()
+		}
+		func() {
+			defer func() {
+				if r := recover(); r != nil {
+					out.Panic2 = r
+				}
+			}()
+			out.Again = true
+			out.Rows2, out.Err2 = q.Exec()
+		}()
+	}
 	return
 }
 
